@@ -7,6 +7,10 @@ mod props;
 use common::*;
 
 fn main() {
+    // a process-history child of C16 must run before anything has used the library
+    if let Ok(h) = std::env::var("PV_C16_HISTORY") {
+        props::c16::child_main(h.parse().unwrap_or(0));
+    }
     let args = parse_args();
     let ctx = Ctx::new(&args);
     if let Err(e) = libx::selfcheck_plumbing() {
